@@ -144,6 +144,7 @@ def regen(snap):
         for script, args in (('tables.py', [os.path.join(snap, 'raid/tables.c'), os.path.join(COQ, 'Gen/Tables.v')]),
                              ('crc.py', [os.path.join(snap, 'cmdline/util.c'), os.path.join(COQ, 'Gen/CrcTables.v')]),
                              ('consts.py', [snap, os.path.join(COQ, 'Gen/Consts.v')]),
+                             ('x86asm.py', [snap, os.path.join(COQ, 'Gen/X86Progs.v')]),
                              ):
             p = os.path.join(gen, script)
             if not os.path.exists(p):
